@@ -10,6 +10,7 @@ with reopen points anywhere.
 -/
 import SwimVerif.Proofs.Stores
 import SwimVerif.Proofs.StoresHandover
+import SwimVerif.Proofs.StoresNeverLost
 
 set_option linter.unusedVariables false
 namespace SwimVerif.Store
@@ -160,15 +161,38 @@ theorem C13_inmem_handover_all_sequences (ops : List Op) :
 example : aget (InMem.run InMem.init [.opn 0 0 [47, 97], .opn 1 0 [47, 97], .opn 2 0 [47, 98], .drp 0, .poll 1]).slots 1 =
     some (.live 0 [47, 97] {}) := by decide
 
-/-- Not proved (statement only): with the FC13a fix no state is ever lost — an entry marked in use always has a
-holder (a running instance, or a pending open that owns the handed-over state). Checked on all choreographies of three
-handles up to depth 6 and on the random traces instead. -/
-def C13_inmem_state_never_lost_open : Prop :=
+/-- **No state is ever lost** (with the FC13a fix), every op sequence: an entry marked in use always has a holder — a
+running instance, or a pending open whose channel already carries the handed-over state.  (Invariant `LInv` in
+`Proofs/StoresNeverLost.lean`: `HInv` + "every live oneshot channel is owned by the pending open waiting on it" +
+this statement; before the fix the step `drp` of a pending open with a full channel broke it.) -/
+theorem C13_inmem_state_never_lost :
   ∀ (ops : List Op) (p : Nat) (uri : Bytes),
     InMem.isInUse (aget (InMem.run InMem.init ops).nodes (p, uri)) = true →
     (∃ a st, aget (InMem.run InMem.init ops).slots a = some (.live p uri st)) ∨
     (∃ a c st, aget (InMem.run InMem.init ops).slots a = some (.waiting p uri c) ∧
-      aget (InMem.run InMem.init ops).chans c = some (.full st))
+      aget (InMem.run InMem.init ops).chans c = some (.full st)) :=
+  fun ops p uri h => (InMem.linv_run ops InMem.init InMem.linv_init).l p uri h
+
+/-- Non-vacuity: after `open 0; id; put; open 1; drop 0` the entry is in use and its only holder is the pending
+open in slot 1, whose channel is full; after the further `drop 1` (cancelled open) the entry is idle again. -/
+example :
+    let s := InMem.run InMem.init [.opn 0 0 [47, 97], .data 0 (.idFor [99]), .data 0 (.put 0 [170]),
+                                   .opn 1 0 [47, 97], .drp 0]
+    InMem.isInUse (aget s.nodes (0, [47, 97])) = true ∧ aget s.slots 0 = none ∧
+    aget s.slots 1 = some (.waiting 0 [47, 97] 0) ∧
+    aget s.chans 0 = some (.full { ids := [([99], 0)], counter := 1, values := [(0, [170])] }) ∧
+    InMem.isInUse (aget (InMem.step s (.drp 1)).1.nodes (0, [47, 97])) = false := by decide
+
+/-- Consequence: a URI whose entry is in use can always make progress — there is a slot whose `drop` (running
+instance) or `poll` (pending open owning the state) is accepted; the URI is never wedged. -/
+theorem C13_inmem_never_wedged (ops : List Op) (p : Nat) (uri : Bytes)
+    (h : InMem.isInUse (aget (InMem.run InMem.init ops).nodes (p, uri)) = true) :
+    (∃ a, (InMem.step (InMem.run InMem.init ops) (.drp a)).2 = .ok ∧
+      ∃ st, aget (InMem.run InMem.init ops).slots a = some (.live p uri st)) ∨
+    (∃ a, (InMem.step (InMem.run InMem.init ops) (.poll a)).2 = .ready) := by
+  rcases C13_inmem_state_never_lost ops p uri h with ⟨a, st, ha⟩ | ⟨a, c, st, ha, hc⟩
+  · exact Or.inl ⟨a, by simp [InMem.step, ha], st, ha⟩
+  · exact Or.inr ⟨a, by simp [InMem.step, ha, InMem.pollSlot, hc]⟩
 
 /-- A pending open that already received the state and is then cancelled (dropped) returns the state to the plane:
 the next open completes at once with exactly that state (the code after the FC13a fix; before it the state was lost
